@@ -10,6 +10,7 @@
 
 mod crash;
 mod exec;
+mod ns;
 mod payload;
 mod sched;
 
@@ -63,6 +64,10 @@ fn main() {
         }
         "crash" => {
             let code = crash::main(&args[2..]);
+            std::process::exit(code);
+        }
+        "ns" => {
+            let code = ns::main(&args[2..]);
             std::process::exit(code);
         }
         "sched" => {
